@@ -141,4 +141,10 @@ def verifyRAs (a b : RA) : List Problem :=
   checkDNS .dnsslCount .dnsslLifetime .dnsslNames (pickDNSSL a.options) (pickDNSSL b.options) ++
   checkCaptivePortal a.options b.options
 
+/-- the RA branch of `(*Advertiser).handle`: the problems logged and counted (each once, under
+    its field/details labels) and whether `OnInconsistentRA` fires -/
+def handleRA (own got : RA) : List Problem × Bool :=
+  let ps := verifyRAs own got
+  (ps, !ps.isEmpty)
+
 end Corerad.Model
